@@ -327,18 +327,18 @@ func (c *Caller) InvokeContext(ctx context.Context, id string, name string, args
 	calls.Append(newCall(index, name, args))
 	c.response(id)
 	if c.Timeout > 0 {
-		ctx, cancel := context.WithTimeout(ctx, c.Timeout)
+		var cancel context.CancelFunc
+		ctx, cancel = context.WithTimeout(ctx, c.Timeout)
 		defer cancel()
-		select {
-		case <-ctx.Done():
-			calls.Delete(index)
-			results.Delete(index)
-			return nil, core.ErrTimeout
-		case result := <-result:
-			return result.Value(returnType)
-		}
 	}
-	return (<-result).Value(returnType)
+	select {
+	case <-ctx.Done():
+		calls.Delete(index)
+		results.Delete(index)
+		return nil, core.ErrTimeout
+	case result := <-result:
+		return result.Value(returnType)
+	}
 }
 
 func (c *Caller) UseService(remoteService interface{}, id string, namespace ...string) {
